@@ -308,6 +308,10 @@ def run_c19(ctx):
         cases = ctx.tlcgen("QuadtreeConcGen", "QuadtreeConcGen_%s.cfg" % v)
         shards = ctx.gen("qtsched", cases=cases, name="qtsched" + v)
         ctx.validate("QuadtreeList_Trace", shards, stage="scheduled-interleavings-" + v)
+    # one query paused in the middle (in its filter, or in the Point() method of a pointer it looks at) while another runs
+    # from start to finish
+    shards = ctx.gen("qtgate", shards=2)
+    ctx.validate("QuadtreeList_Trace", shards, stage="paused-queries")
     if os.environ.get("VERIF_SKIP_RACE"):      # diagnosis only: see what the scheduled stage catches alone
         return
     race = ctx.build(race=True)
@@ -320,7 +324,7 @@ def run_c19(ctx):
 PLANS["C19"] = dict(
     run=run_c19, signature=sig_default,
     technique="TLA+ spec of queries as interleaved per-visit processes over a read-only tree; TLC checks all interleavings (and that shared-scratch designs fail), emits every interleaving as a schedule replayed into gated goroutines, and validates results of free-running goroutines under the race detector",
-    level_text="TLC checks every interleaving of 3 query processes (nearest and k-nearest, one step per node visit) over a tree with removals for NoSharedWrite, Deterministic (= the same query alone) and TreeUnchanged, and confirms that the two forbidden designs (search box in the tree object; readers compacting emptied leaves) violate them. Every interleaving of two queries is then emitted as a schedule and replayed: one goroutine per query, each node visit gated through the filter callback; after it, results must equal the same query run alone and satisfy the bag-model relations, and the node tree (hook VerifWalk) must be identical. Finally 2..32 free-running goroutines with mixed queries and per-goroutine buffers run on seeded trees under the Go race detector; a race report kills the harness and is a violation.",
+    level_text="TLC checks every interleaving of 3 query processes (nearest and k-nearest, one step per node visit) over a tree with removals for NoSharedWrite, Deterministic (= the same query alone) and TreeUnchanged, and confirms that the two forbidden designs (search box in the tree object; readers compacting emptied leaves) violate them. Every interleaving of two queries is then emitted as a schedule and replayed: one goroutine per query, each node visit gated through the filter callback; after it, results must equal the same query run alone and satisfy the bag-model relations, and the node tree (hook VerifWalk) must be identical. Paused queries: for seeded trees and pairs of queries of all six kinds (incl. the same point and k with different limits) query A is stopped inside its filter callback - or, for the unfiltered kinds, inside the Point() method of the first pointer it looks at - while query B runs from start to finish; B must complete and both must return what they return alone. Finally 2..32 free-running goroutines with mixed queries and per-goroutine buffers run on seeded trees under the Go race detector; a race report kills the harness and is a violation.",
     level_note="Schedules are at filter-call granularity (the only hookless yield point); instructions inside one visit are not interleaved deterministically - that is what the race-detector stage covers probabilistically. Trusted: TLC, the Go race detector, the VerifWalk hook.",
     rule="one event = one tree-building operation or one goroutine's query batch (concurrent results, the same queries alone, node tree before/after); every event non-trivial; distinct = distinct event text",
     assumptions=["goroutine scheduling between gates is sequentialised by the controller; within a visit the Go scheduler decides"],
